@@ -113,6 +113,63 @@ func (b *bmcSys) predHeap() map[*Object]Value {
 	return b.prunedHeap
 }
 
+// findRacy extends b.racy; reports whether anything new was found.
+func (b *bmcSys) findRacy() bool {
+	type acc struct{ r, w map[int]bool }
+	cells := map[string]*acc{}
+	get := func(k string) *acc {
+		a := cells[k]
+		if a == nil {
+			a = &acc{r: map[int]bool{}, w: map[int]bool{}}
+			cells[k] = a
+		}
+		return a
+	}
+	for _, o := range b.outcomes {
+		if !o.loc.proc.p.Lib {
+			continue
+		}
+		for _, p := range o.paths {
+			for k := range p.reads {
+				get(k).r[o.loc.proc.idx] = true
+			}
+			for k := range p.writes {
+				get(k).w[o.loc.proc.idx] = true
+			}
+		}
+	}
+	found := false
+	for k, a := range cells {
+		if b.racy[k] || len(a.w) == 0 {
+			continue
+		}
+		procs := map[int]bool{}
+		for p := range a.r {
+			procs[p] = true
+		}
+		for p := range a.w {
+			procs[p] = true
+		}
+		if len(procs) > 1 {
+			if b.racy == nil {
+				b.racy = map[string]bool{}
+			}
+			b.racy[k] = true
+			found = true
+		}
+	}
+	return found
+}
+
+func (b *bmcSys) racyList() []string {
+	var ks []string
+	for k := range b.racy {
+		ks = append(ks, k)
+	}
+	sort.Strings(ks)
+	return ks
+}
+
 func (b *bmcSys) check() {
 	f := b.f
 	m := b.setup
@@ -121,16 +178,6 @@ func (b *bmcSys) check() {
 	b.clock = b.job.Params["clock"]
 	if len(m.procs) == 0 {
 		unsupported("harness registered no goroutines")
-	}
-	for i, p := range m.procs {
-		bp := &bproc{idx: i, p: p}
-		bp.start = &bloc{id: len(b.locs), proc: bp, kind: opStart, key: "start", desc: "start"}
-		b.locs = append(b.locs, bp.start)
-		bp.exit = &bloc{id: len(b.locs), proc: bp, kind: opExit, key: "exit", desc: "exit", done: true}
-		b.locs = append(b.locs, bp.exit)
-		bp.locs = []*bloc{bp.start, bp.exit}
-		bp.pc = b.newState(fmt.Sprintf("pc.p%d", i), term.Int, f.IntC(int64(bp.start.id)))
-		b.procs = append(b.procs, bp)
 	}
 	for _, c := range b.w.Chans {
 		b.chanState(c)
@@ -141,21 +188,42 @@ func (b *bmcSys) check() {
 	for _, o := range b.w.Objs {
 		b.symbolizeObject(m, o)
 	}
-	// extraction to a fixed point
-	for {
-		progress := false
-		for i := 0; i < len(b.locs); i++ {
-			if !b.locs[i].done {
-				b.extract(b.locs[i])
-				progress = true
+	for round := 0; ; round++ {
+		b.procs, b.locs, b.outcomes = nil, nil, nil
+		for i, p := range m.procs {
+			bp := &bproc{idx: i, p: p}
+			bp.start = &bloc{id: len(b.locs), proc: bp, kind: opStart, key: "start", desc: "start"}
+			b.locs = append(b.locs, bp.start)
+			bp.exit = &bloc{id: len(b.locs), proc: bp, kind: opExit, key: "exit", desc: "exit", done: true}
+			b.locs = append(b.locs, bp.exit)
+			bp.locs = []*bloc{bp.start, bp.exit}
+			bp.pc = b.newState(fmt.Sprintf("pc.p%d", i), term.Int, f.IntC(int64(bp.start.id)))
+			b.procs = append(b.procs, bp)
+		}
+		// extraction to a fixed point
+		for {
+			progress := false
+			for i := 0; i < len(b.locs); i++ {
+				if !b.locs[i].done {
+					b.extract(b.locs[i])
+					progress = true
+				}
+			}
+			if !progress {
+				break
+			}
+			if len(b.locs) > 3000 {
+				unsupported("more than 3000 locations")
 			}
 		}
-		if !progress {
+		// cells written by one library goroutine and accessed by another one: their
+		// loads and stores must be steps of their own (else a read-modify-write or a
+		// receive-then-send through such a cell would be atomic in the model and a
+		// lost update invisible). Extraction is repeated with those accesses visible.
+		if !b.findRacy() || round >= 3 {
 			break
 		}
-		if len(b.locs) > 3000 {
-			unsupported("more than 3000 locations")
-		}
+		b.logf("shared cells accessed by several library goroutines: %v; extracting again with their loads/stores as separate steps", b.racyList())
 	}
 	b.logf("extraction: %d locations, solver %.1fs (%d queries)", len(b.locs), b.s.Stats.Seconds, b.s.Stats.Queries)
 	b.buildTransitions()
